@@ -132,6 +132,8 @@ func (w *world) construct(o Op) O {
 			rets = []SR{composeViaAny(w.hs[o.H])}
 		case "key":
 			rets = []SR{composeViaKey(w.hs[o.H])}
+		case "nil":
+			rets = []SR{composeViaNilAny(w.hs[o.H])}
 		default:
 			rets = []SR{schema.StreamReaderWithConvert(w.hs[o.H], mkConv(*o.F))}
 		}
